@@ -283,6 +283,40 @@ def h_propka_text(eng, n):
         eng.check(same, "propka-input-independent-of-keep-chain", note=f"the text handed to PROPKA differs under --keep-chain: {[str(x)[:30] for x in flagged if not isinstance(x, strs.SymStr)][:3]}")
 
 
+def h_run_sequence(eng):
+    """two or three runs on the SAME input path in one process (programmatic use: main_driver in a loop over option sets),
+    each with or without --drop-water (selectors), through the real io.get_molecule and main.drop_water on a real
+    temporary file: every run sees the records a single run with its options sees - in particular a run without
+    --drop-water still has its waters after a --drop-water run (round 6: a parsed-record cache plus an in-place filter)"""
+    import os
+    import shutil
+    import tempfile
+
+    from pdb2pqr import io, main, pdb
+
+    n = 2 + eng.choice("runs", 2)
+    drops = [bool(eng.flag(f"drop_water_run{k}")) for k in range(n)]
+    lines = [ln for ln in fixtures.peptide_lines(["ALA", "GLY"]) if not ln.startswith("END")]
+    lines += [fixtures.atom_line(90 + k, "O", "HOH", "A", 50 + k, 3.0 * k, 8.0, 2.0, record="HETATM") for k in range(3)] + ["END"]
+    tmp = tempfile.mkdtemp(prefix="c09-")
+    try:
+        path = os.path.join(tmp, "in.pdb")
+        with open(path, "w") as f:
+            f.write("\n".join(lines) + "\n")
+        got = []
+        for d in drops:
+            recs, _is_cif = io.get_molecule(path)
+            if d:
+                recs = main.drop_water(recs)
+            got.append([(r.res_name, r.res_seq, r.name) for r in recs if isinstance(r, (pdb.ATOM, pdb.HETATM))])
+    finally:
+        shutil.rmtree(tmp, ignore_errors=True)
+    full = [(ln[17:20].strip(), int(ln[22:26]), ln[12:16].strip()) for ln in lines if ln.startswith(("ATOM", "HETATM"))]
+    dry = [t for t in full if t[0] != "HOH"]
+    for k, d in enumerate(drops):
+        eng.check(got[k] == (dry if d else full), "each-run-sees-its-own-input", note=f"run {k + 1} of {n} (--drop-water in the runs: {drops}) worked on {len(got[k])} coordinate records, a single run with its options on {len(dry if d else full)}")
+
+
 def obligations(tier):
     obs = []
     combos = [(0, 1, 0), (1, 0, 1), (2, 1, 0)] if tier == "quick" else [(f, p, l) for f in (0, 1, 2) for p in (0, 1) for l in (0, 1)]
@@ -318,6 +352,7 @@ def obligations(tier):
     # --keep-chain changes the chain column only: the atom order does not depend on it (C08 twin/chain-order harness)
     for kc in (False, True):
         obs.append(Obligation(f"atom-order-{'kc' if kc else 'nokc'}", c08.h_atom_list_twins, dict(n=3, kc=kc), group="atom-order", time_cap=1200, max_paths=100000))
+    obs.append(Obligation("run-sequence-same-path", h_run_sequence, {}, group="records", time_cap=600))
     return obs
 
 
